@@ -8,6 +8,7 @@ import (
 	"os"
 	"sort"
 	"strings"
+	"sync"
 	"time"
 
 	"verifsim/harness"
@@ -76,6 +77,52 @@ func fatal(err error) {
 	os.Exit(2)
 }
 
+// watch is what the wall-clock watchdog needs to know about the run in progress.
+var watch struct {
+	mu      sync.Mutex
+	started time.Time
+	prop    string
+	run     int
+	pkg     *harness.Pkg
+	tape    *tape.Tape
+	active  bool
+}
+
+func (w *worker) startWatchdog(limit time.Duration) {
+	go func() {
+		for {
+			time.Sleep(500 * time.Millisecond)
+			watch.mu.Lock()
+			hung := watch.active && time.Since(watch.started) > limit
+			prop, run, pkg, tp := watch.prop, watch.run, watch.pkg, watch.tape
+			watch.mu.Unlock()
+			if !hung {
+				continue
+			}
+			// a task is spinning without ever reaching a seam: report and leave (the goroutine cannot be stopped)
+			res := w.res
+			key := "stall:wall-clock-hang"
+			if w.job.Mode == "replay" {
+				res.ReplayKey = key
+				res.Notes = append(res.Notes, fmt.Sprintf("run did not finish within %s of wall-clock time: a task never returned to a scheduler seam (infinite loop?)", limit))
+			} else if prop == "C14" {
+				rec := append([]uint32(nil), tp.Rec...)
+				res.Violations = append(res.Violations, Violation{Key: key, Replay: Replay{Property: prop, FindingKey: key, Seed: w.job.Seed, Run: run, Pkg: pkg.Name, Spec: pkg.Spec, Tape: rec,
+					Trace:    []string{"the tape holds the choices made until the hang; the remaining choices are 0 (keep running the current task)"},
+					Observed: fmt.Sprintf("run did not finish within %s of wall-clock time: a server task never returned to a scheduler seam", limit),
+					Expected: "every server task terminates"}})
+				res.Notes = append(res.Notes, "worker stopped after a hang; its remaining run indices were not executed")
+			} else {
+				res.HarnessErr = fmt.Sprintf("run %d (pkg %s) hung for %s", run, pkg.Name, limit)
+			}
+			res.LogHash = "hang"
+			ob, _ := json.Marshal(res)
+			os.WriteFile(w.job.Out, ob, 0o644)
+			os.Exit(0)
+		}
+	}()
+}
+
 type worker struct {
 	job      *Job
 	res      *Result
@@ -131,6 +178,7 @@ func main() {
 			w.pairs[k] = struct{}{}
 		}
 	}
+	w.startWatchdog(45 * time.Second)
 	if job.Mode == "replay" {
 		w.replay()
 	} else {
@@ -176,6 +224,10 @@ func (w *worker) oneRun(prop string, run int, t *tape.Tape, forcePkg string, log
 		pt := tape.NewGen(w.job.Seed, prop+"-pkg", uint64(run))
 		p = w.pkgs[pt.Choose(len(w.pkgs), "pkg")]
 	}
+	watch.mu.Lock()
+	watch.started, watch.prop, watch.run, watch.pkg, watch.tape, watch.active = time.Now(), prop, run, p, t, true
+	watch.mu.Unlock()
+	defer func() { watch.mu.Lock(); watch.active = false; watch.mu.Unlock() }()
 	switch prop {
 	case "C09":
 		return w.runC09(p, t, logOn)
